@@ -459,22 +459,47 @@ func (g *pgen) function(name string, kind int, depth, budget int) *Func {
 			// block: return() / throw() then arrive while the generator is suspended INSIDE the finally block that is
 			// running because of an earlier return(), and the delegate of the try block has been abandoned
 			g.use("yielding-finally-after-delegation")
-			e := g.newVar("e")
-			f.Body = append(f.Body, &STry{
+			e, e2, x := g.newVar("e"), g.newVar("e"), g.newVar("x")
+			inner := &STry{
 				Body: []Stmt{
 					&SAssign{Var: g.scratch[0], E: &EYield{E: &ENum{N: 1}}},
 					&SAssign{Var: g.scratch[0], E: &EYieldStar{Iter: g.iterable(1)}},
 				},
 				HasFinally: true,
 				Finally: []Stmt{
+					// an iterator that is open while the generator is suspended inside the finally block
+					&SForOf{Label: g.newLabel(), Var: x, Iter: &EIt{Site: g.ns(), N: 2, Flags: 3}, Body: []Stmt{&SAssign{Var: g.scratch[1], E: &EYield{E: &ENum{N: 2}}}}},
 					&STry{
-						Body:     []Stmt{&SAssign{Var: g.scratch[1], E: &EYield{E: &ENum{N: 2}}}, g.exitPoint()},
+						Body:     []Stmt{&SAssign{Var: g.scratch[1], E: &EYield{E: &ENum{N: 3}}}, g.exitPoint()},
 						HasCatch: true, CatchVar: e, CatchSite: g.ns(),
-						Catch: []Stmt{&SAssign{Var: g.scratch[2], E: &EYield{E: &ENum{N: 3}}}},
+						Catch: []Stmt{&SAssign{Var: g.scratch[2], E: &EYield{E: &ENum{N: 4}}}},
 					},
-					&SAssign{Var: g.scratch[1], E: &EYield{E: &ENum{N: 4}}},
+					&SAssign{Var: g.scratch[1], E: &EYield{E: &ENum{N: 5}}},
+					g.exitPoint(),
 				},
-			})
+			}
+			if g.t.Draw(2) == 0 {
+				// variant: a try/finally nested INSIDE the finally block; both finally blocks can then be running because
+				// of (two successive) return() calls when an exception leaves the inner one
+				inner.Finally = []Stmt{
+					&STry{
+						Body:       []Stmt{&SAssign{Var: g.scratch[1], E: &EYield{E: &ENum{N: 8}}}},
+						HasFinally: true,
+						Finally:    []Stmt{&SAssign{Var: g.scratch[2], E: &EYield{E: &ENum{N: 9}}}, g.exitPoint()},
+					},
+					&SAssign{Var: g.scratch[1], E: &EYield{E: &ENum{N: 5}}},
+				}
+			}
+			var st Stmt = inner
+			if g.t.Draw(2) == 0 {
+				// ... nested in an outer try/finally whose finally block suspends too, inside a try/catch
+				st = &STry{
+					Body:     []Stmt{&STry{Body: []Stmt{inner}, HasFinally: true, Finally: []Stmt{&SAssign{Var: g.scratch[2], E: &EYield{E: &ENum{N: 6}}}, g.exitPoint()}}},
+					HasCatch: true, CatchVar: e2, CatchSite: g.ns(),
+					Catch: []Stmt{&SAssign{Var: g.scratch[2], E: &EYield{E: &ENum{N: 7}}}},
+				}
+			}
+			f.Body = append(f.Body, st)
 		case 6:
 			// a delegation that fails in GetIterator (or in the delegate's first step), caught by the generator itself,
 			// which then drives a generator (possibly itself: it is still running) before it yields again
@@ -597,11 +622,12 @@ func genProgram(t *core.Track, mode string) (*Program, map[string]int) {
 	// a scripted sequence of driver operations on one generator object at the start of main (on top of the random driver
 	// operations inside the bodies): histories like next, return, throw, next need several operations in a row
 	var seqDrive []Stmt
-	if len(g.gvars) > 0 && t.Draw(2) == 0 {
+	if len(g.gvars) > 0 && t.Draw(4) != 0 {
 		g.use("driver-sequence")
 		gv := g.gvars[t.Draw(len(g.gvars))]
 		for i, n := 0, 2+t.Draw(4); i < n; i++ {
-			seqDrive = append(seqDrive, &STry{Body: []Stmt{&SExpr{E: &EDrive{Site: g.ns(), Gen: gv, Op: t.Draw(3), Arg: &ENum{N: 20 + i}}}},
+			op := []int{dNext, dNext, dThrow, dReturn, dReturn}[t.Draw(5)]
+			seqDrive = append(seqDrive, &STry{Body: []Stmt{&SExpr{E: &EDrive{Site: g.ns(), Gen: gv, Op: op, Arg: &ENum{N: 20 + i}}}},
 				HasCatch: true, CatchVar: "ep", CatchSite: g.ns()})
 		}
 	}
